@@ -28,6 +28,11 @@ macro_rules! hist_check {
                     Tier::Thorough => $thorough,
                 }
             }
+            fn replay_repeats(&self) -> usize {
+                // referential actions walk the catalog's HashMap of tables: which child table is
+                // handled first differs between executions
+                8
+            }
             fn tape_len(&self, _t: Tier) -> usize {
                 1200
             }
